@@ -226,11 +226,33 @@ pub fn install(delay: Delay, seed: u64, scale_us: u64) {
     set_handler(Some(on_point));
 }
 
+/// duration of the deliberate long stalls (0: the `StallOne` profile stalls 150-250 ms)
+pub static LONG_STALL_MS: AtomicU64 = AtomicU64::new(0);
+/// end (ms since the first call of `now_ms`) of a stall the harness itself is making: the progress
+/// watchdog must not read it as a deadlock
+pub static PAUSE_UNTIL_MS: AtomicU64 = AtomicU64::new(0);
+
+pub fn now_ms() -> u64 {
+    static T0: std::sync::OnceLock<std::time::Instant> = std::sync::OnceLock::new();
+    T0.get_or_init(std::time::Instant::now).elapsed().as_millis() as u64
+}
+
+pub fn deliberate_pause(ms: u64) {
+    PAUSE_UNTIL_MS.store(now_ms() + ms, Ordering::SeqCst);
+    std::thread::sleep(Duration::from_millis(ms));
+    PAUSE_UNTIL_MS.store(0, Ordering::SeqCst);
+}
+
 /// the one long stall of the `StallOne` profile (called by the work closures with their batch / record index)
 pub fn stall_if_target(index: u64) {
     if DELAY.load(Ordering::Relaxed) == Delay::StallOne as usize && DELAY_TARGET.load(Ordering::Relaxed) as u64 == index {
-        let r = trng();
-        std::thread::sleep(Duration::from_millis(150 + r % 100));
+        let long = LONG_STALL_MS.load(Ordering::Relaxed);
+        if long > 0 {
+            deliberate_pause(long);
+        } else {
+            let r = trng();
+            std::thread::sleep(Duration::from_millis(150 + r % 100));
+        }
     }
 }
 
@@ -380,6 +402,9 @@ pub enum Consumer {
     StopAfter(usize),
     /// drains, sleeping between results
     Slow,
+    /// drains; after the k-th result it does nothing for `LONG_STALL_MS` (seconds, not microseconds:
+    /// a user who looks at a result, a consumer blocked on its own output)
+    PauseAfter(usize),
 }
 
 #[derive(Clone, Debug, PartialEq, Eq)]
@@ -424,6 +449,7 @@ impl Scenario {
             Consumer::StopAfter(0) => "never-ask",
             Consumer::StopAfter(_) => "stop-after-k",
             Consumer::Slow => "slow-drain",
+            Consumer::PauseAfter(_) => "drain-with-one-long-pause",
         };
         let e = match (&self.init_fail, self.err_at) {
             (InitFail::Reader, _) => "reader-init-fails",
@@ -580,6 +606,11 @@ pub fn run_mock(sc: &Scenario) -> MockResult {
                             seen.sets.push((set.tag, b, payload_ok, own));
                         }
                         let (tag0, sum0, len0) = (set.tag, checksum(&set.payload), set.payload.len());
+                        if let Consumer::PauseAfter(k) = consumer {
+                            if seen.asked == k + 1 {
+                                deliberate_pause(LONG_STALL_MS.load(Ordering::Relaxed).max(1));
+                            }
+                        }
                         if consumer == Consumer::Slow {
                             closure_delay(2);
                             std::thread::sleep(Duration::from_micros(50));
